@@ -110,8 +110,25 @@ pub fn evaluate_with(prog: &asp::Program, mode: Mode, limit: usize, rich: bool, 
     };
     out.natural_accepted = nat.is_some();
     if tau.formulas.len() != prog.rules.len() {
-        out.machinery
-            .push("tau* did not return one formula per rule".into());
+        // not one formula per rule: the rules cannot be compared one by one, so the whole theory is compared
+        // with the whole program (a dropped rule is harmless only if the rest entails it)
+        let mut diffs_all = vec![];
+        for &w in ws.iter() {
+            let slice = slice_for(w, &syms);
+            let mut cx = refsem::Ctx::new();
+            let reference = refsem::program_sem(prog, &slice.general(), &u, &mut cx);
+            let inner = slice.widened(std::cmp::max(w, cx.maxabs + 2));
+            let mut g = G::new(&u, slice.clone(), inner);
+            let ptau = P::and(tau.formulas.iter().map(|f| g.ground(f)).collect());
+            let d = xor(&hs.sat(&reference), &hs.sat(&ptau));
+            out.interps += hs.nvalid();
+            diffs_all.push(match hs.sp.first_set(&d).filter(|i| hs.sp.get(&hs.valid, *i)) {
+                Some(idx) => vec![("tau_star_formula_count_and_meaning".to_string(), 0usize, json!({"rules": prog.rules.len(), "formulas": tau.formulas.len(),
+                    "interpretation": describe_ht(&hs, &u, idx), "theory": tau.to_string()}))],
+                None => vec![],
+            });
+        }
+        out.diffs = diffs_all;
         return out;
     }
     // a translation of a program is a set of sentences: a free variable in the output is reported as
